@@ -41,18 +41,30 @@ confirmed = ran.get('patch_applies') and ran['demo_without_change_rc'] == 0 and 
 print('confirmed:', confirmed, ran)
 detected = None
 if confirmed:
-    rc, o = sh('git apply %s/patch.diff' % out, cwd='/repo'); assert rc == 0, o
+    tree = '/repo'
+    if os.environ.get('SEED_WT'):          # leave /repo alone: apply the change in a scratch worktree and point the check at it
+        tree = '/tmp/seed_run_%s_%s' % (prop, tag)
+        sh('git -C /repo worktree remove --force %s' % tree)
+        rc, o = sh('git -C /repo worktree add -q --detach %s HEAD' % tree); assert rc == 0, o
+    rc, o = sh('git apply %s/patch.diff' % out, cwd=tree); assert rc == 0, o
+    evf = '/verif/evidence/%s.json' % prop
+    saved_ev = open(evf).read() if os.path.exists(evf) else None
     try:
         t0 = time.time()
-        rc, o = sh('./fmv check %s --tier %s' % (prop, tier), cwd='/verif')
+        rc, o = sh(('FMV_REPO=%s ' % tree if tree != '/repo' else '') + './fmv check %s --tier %s' % (prop, tier), cwd='/verif')
         ran['check_cmd'] = './fmv check %s --tier %s' % (prop, tier)
         ran['check_rc'] = rc
         ran['check_wall_s'] = round(time.time() - t0, 1)
         ran['check_tail'] = '\n'.join(o.strip().splitlines()[-6:])[-1500:]
         detected = (rc == 1 and 'VIOLATION property=%s' % prop in o)
     finally:
-        sh('git checkout -- .', cwd='/repo')
-        assert sh('git -C /repo status --porcelain')[1].strip() == ''
+        if tree == '/repo':
+            sh('git checkout -- .', cwd='/repo')
+            assert sh('git -C /repo status --porcelain')[1].strip() == ''
+        else:
+            sh('git -C /repo worktree remove --force %s' % tree)
+        if saved_ev is not None:
+            open(evf, 'w').write(saved_ev)
     print('check rc', ran['check_rc'], 'detected:', detected)
     print(ran['check_tail'])
     os.makedirs(dest, exist_ok=True)
